@@ -247,6 +247,21 @@ def join_cases(tier):
             cases.append(VCase("functional.concat", {"op": "functional.concat", "shapes": shapes, "dim": dim, "requires_grad": list(fl)},
                                [Leaf(n, s, "any", r) for n, s, r in zip(names, shapes, fl)],
                                lambda T, K, names=names, dim=dim: f.concat([T[n] for n in names], dim), functions=fns))
+    # the operands are handed over in a Python LIST that the caller re-uses afterwards (reversed, cleared, extended): the recorded graph must not alias it
+    for opname, call in (("concat", lambda lst: f.concat(lst, 0)), ("stack", lambda lst: f.stack(lst, 0))):
+        for mutation in ("reverse", "clear", "append"):
+            def build(T, K, call=call, mutation=mutation):
+                lst = [T["t0"], T["t1"], T["t2"]]
+                out = call(lst)
+                if mutation == "reverse":
+                    lst.reverse()
+                elif mutation == "clear":
+                    lst.clear()
+                else:
+                    lst.append(T["t0"] * 2.0)
+                return out
+            cases.append(VCase("functional." + opname, {"op": "functional." + opname, "shapes": [(2, 3)] * 3, "dim": 0, "operands_passed_as": "list", "caller_then": "list.%s()" % mutation},
+                               [Leaf("t0", (2, 3)), Leaf("t1", (2, 3)), Leaf("t2", (2, 3), "any", False)], build, functions=(FN + opname,)))
     cases.append(VCase("functional.concat", {"op": "functional.concat", "same_tensor_twice": True, "dim": 0}, [Leaf("a", (2, 3))],
                        lambda T, K: f.concat((T["a"], T["a"]), 0), functions=fns))
     # stack
@@ -497,6 +512,10 @@ def zero_extent_cases(tier):
         add("functional.reshape", {"shape": sh, "target": sh[::-1]}, [Leaf("a", sh)], lambda T, K, sh=sh: f.reshape(T["a"], sh[::-1]))
         add("functional.stack", {"shape": sh, "count": 2, "dim": 0}, [Leaf("a", sh), Leaf("b", sh)], lambda T, K: f.stack([T["a"], T["b"]], 0))
     add("functional.concat", {"shapes": [(0, 3), (2, 3)], "dim": 0}, [Leaf("a", (0, 3)), Leaf("b", (2, 3))], lambda T, K: f.concat([T["a"], T["b"]], 0))
+    for fl in [(True, True), (True, False), (False, True)]:
+        add("functional.concat", {"shapes": [(0,), (3,)], "dim": 0, "requires_grad": list(fl)}, [Leaf("a", (0,), "any", fl[0]), Leaf("b", (3,), "any", fl[1])], lambda T, K: f.concat([T["a"], T["b"]], 0))
+        add("functional.concat", {"shapes": [(2,), (0,), (1,)], "dim": 0, "requires_grad": [fl[1], fl[0], False]},
+            [Leaf("a", (2,), "any", fl[1]), Leaf("e", (0,), "any", fl[0]), Leaf("c", (1,), "any", False)], lambda T, K: f.concat([T["a"], T["e"], T["c"]], 0))
     add("functional.matmul", {"shapes": [(0, 3), (3, 2)]}, [Leaf("a", (0, 3)), Leaf("b", (3, 2))], lambda T, K: f.matmul(T["a"], T["b"]))
     add("functional.matmul", {"shapes": [(2, 0), (0, 2)]}, [Leaf("a", (2, 0)), Leaf("b", (0, 2))], lambda T, K: f.matmul(T["a"], T["b"]))
     add("functional.addmm", {"shapes": [(2,), (0, 3), (3, 2)]}, [Leaf("a", (2,)), Leaf("b", (0, 3)), Leaf("c", (3, 2))], lambda T, K: f.addmm(T["a"], T["b"], T["c"]))
